@@ -167,3 +167,13 @@ Fixpoint tr_mapS {A B S} (f : S -> A -> mres B S) (l : list A) (s : S) : mres (l
 
 (** [s * n] / [n * s] for a str (or list) and an int: [n] copies; a count [n <= 0] gives the empty sequence *)
 Definition tr_repeat {A} (s : list A) (n : Z) : list A := concat (repeat s (Z.to_nat n)).
+
+(** truth value of an Optional[bool]: None and False are falsy *)
+Definition tr_opt_true (o : option bool) : bool := match o with Some true => true | _ => false end.
+
+(** [[x for x in l if p(x)]] with a filter that may raise: the elements are tested in order *)
+Fixpoint tr_filterM {A} (p : A -> result bool) (l : list A) : result (list A) :=
+  match l with
+  | [] => Ok []
+  | a :: r => do b <- p a; do r' <- tr_filterM p r; Ok (if b then a :: r' else r')
+  end.
